@@ -17,6 +17,7 @@ import (
 	"net/http/httptest"
 	"strings"
 	"sync"
+	"time"
 
 	"k8s.io/client-go/rest"
 
@@ -352,6 +353,11 @@ func specLeader(store string) xstate.Spec {
 		New: func() interface{} {
 			vsched.InlineGo = true
 			s := &sysL{rig: limrig.New(2, store), ups: ups, store: store}
+			if store == "k8s-writeback" {
+				// the limiter binary's default for --limit-store=k8s: conditions are written to the API by a periodic flush
+				// (never reached in a run) and by the final flush when the shard is given up
+				s.rig = limrig.NewWithSyncPeriod(2, "k8s", 24*time.Hour)
+			}
 			// both clusters exist in the lister from the start
 			for i, u := range s.ups {
 				_ = s.rig.Indexer.Add(limrig.MIFCluster(u, "s", proxyv1alpha1.GlobalCountLimit, 1, 5))
@@ -502,7 +508,7 @@ func specLeader(store string) xstate.Spec {
 }
 
 func persisted(s *sysL) string {
-	if s.store != "k8s" {
+	if !strings.HasPrefix(s.store, "k8s") {
 		return ""
 	}
 	var out []string
@@ -522,7 +528,7 @@ func main() {
 		"the limiter servers the gateway talks to are loopback HTTP stubs serving /ratelimit/endpoints; the gateway-side clientSets is the real one without its timer loops (its sync() is called by the driver)",
 		"names: every byte string of length <= 2 over a 24-byte alphabet plus generated realistic names; N from the stated list",
 	}
-	specs := []xstate.Spec{specLeader("local"), specLeader("k8s")}
+	specs := []xstate.Spec{specLeader("local"), specLeader("k8s"), specLeader("k8s-writeback")}
 	if c.ReplayFile() != "" {
 		xstate.ReplayIfAsked(c, specs)
 	}
@@ -546,6 +552,7 @@ func main() {
 	tasks = append(tasks, knowledgeTasks(c)...)
 	tasks = append(tasks, xstate.Tasks(c, specLeader("local"), c.Pick(10, 14), 16)...)
 	tasks = append(tasks, xstate.Tasks(c, specLeader("k8s"), c.Pick(9, 12), 16)...)
+	tasks = append(tasks, xstate.Tasks(c, specLeader("k8s-writeback"), c.Pick(8, 11), 16)...)
 	c.RunTasks(tasks)
 	c.Finish(map[string]interface{}{
 		"states":                        c.Counter("states"),
